@@ -123,6 +123,23 @@ func buildProbe(t *rapid.T, x *c13Ctx, k int) *probe {
 		// request with a body and trailers
 		id := x.newID()
 		tag := x.tag()
+		if drawBool(t, "paddedcl", 30) {
+			// a declared content-length delivered in PADDED DATA frames: padding (and the
+			// pad-length octet) is not content, the frames add up to exactly the declared length
+			body := []byte("body-of-" + tag)
+			cut := rapid.IntRange(0, len(body)).Draw(t, "paddedclcut")
+			fs := HeadersFrames(id, x.enc.Block(x.fields(tag, "POST", [2]string{"content-length", fmt.Sprint(len(body))})), false, nil, -1, nil)
+			fs = append(fs, DataFrame(id, body[:cut], false, rapid.IntRange(0, 40).Draw(t, "paddedclp1")))
+			if drawBool(t, "paddedclempty", 40) {
+				fs = append(fs, DataFrame(id, body[cut:], false, 0), DataFrame(id, nil, true, rapid.IntRange(0, 9).Draw(t, "paddedclp3")))
+			} else {
+				fs = append(fs, DataFrame(id, body[cut:], true, rapid.IntRange(0, 40).Draw(t, "paddedclp2")))
+			}
+			if x.hold {
+				x.resp[tag] = &RespPlan{Status: 200, Body: []byte("ok:" + tag), Park: true}
+			}
+			return &probe{Name: "request with content-length whose body arrives in padded DATA frames", Kind: "legal", Frames: fs, GoodTag: tag}
+		}
 		fs := HeadersFrames(id, x.enc.Block(x.fields(tag, "POST", [2]string{"trailer", "x-t"})), false, nil, -1, nil)
 		fs = append(fs, DataFrame(id, []byte("body-of-"+tag), false, -1))
 		name := "request with body and trailers"
